@@ -347,6 +347,7 @@ func runC14(c *an.Ctx) {
 	ruleW9(c)
 	ruleW10(c)
 	ruleW11(c)
+	ruleW12(c)
 	// ---------------- W3 ----------------
 	ruleW3(c)
 }
